@@ -78,7 +78,13 @@ func NewEngineCorpus(id string, withRace bool, corpusLimit int) (*Engine, error)
 	var cpkgs []CorpusPkg
 	cskipped := map[string]string{}
 	if corpusLimit != 0 {
-		cpkgs, cskipped = prepareCorpus(s, corpusSpecs(s.Src, 60_000, max(corpusLimit, 0)))
+		list := corpusSpecs(s.Src, 60_000, max(corpusLimit, 0))
+		nDerived := 0
+		if corpusLimit < 0 {
+			nDerived = 4
+		}
+		list = append(list, derivedSpecs(s, nDerived)...)
+		cpkgs, cskipped = prepareCorpus(s, list)
 	}
 	// 2. instrument ogen's own packages
 	e := &Engine{S: s, Plain: map[string]string{}, Race: map[string]string{}, CorpusSkipped: cskipped}
@@ -110,7 +116,7 @@ func NewEngineCorpus(id string, withRace bool, corpusLimit int) (*Engine, error)
 		// the corpus harness: links and transport of xsim plus the raw-request driver
 		dst := filepath.Join(h, "csim")
 		_ = os.MkdirAll(dst, 0o755)
-		for _, f := range []string{"xsim/link.go", "xsim/transport.go", "csim/csim.go", "csim/csim_test.go"} {
+		for _, f := range []string{"xsim/link.go", "xsim/transport.go", "csim/csim.go", "csim/typed.go", "csim/csim_test.go"} {
 			b, err := os.ReadFile(filepath.Join(simbuild.SimSrc(), f))
 			if err != nil {
 				return nil, build.Toolf("%v", err)
